@@ -57,7 +57,7 @@ def plan(tier, seed):
         M = int(rng.integers(16, 48))
         ov, w = pick(rng, [(1.25, 4), (1.25, 4), (2, 4), (2, 4), (1.5, 4), (1.25, 6), (2, 6),
                            (1.5, 3), (1.75, 5), (1.3, 4.5), (1.4, 3.5), (1.9, 5.5)])
-        P.add("acc", grid=grid, M=M, batch=pick(rng, [[], [], [2], [2, 2]]),
+        P.add("acc", grid=grid, M=M, batch=pick(rng, [[], [], [2], [2, 2], [5]]),
               ccls=pick(rng, ["inside", "inside", "integer", "ties", "clustered", "outside"]),
               img=pick(rng, ["gauss", "gauss", "delta", "edge-delta", "const", "expo"]),
               oversamp=ov, width=w, cseed=int(rng.integers(1 << 30)),
@@ -199,6 +199,9 @@ def run_case(case):
     single = sum(case["rs"]) % 7 == 0          # complex64 data path
     if single:
         x = x.astype(np.complex64)
+    mag = [1, 1, 1, 1e-10, 1e8][sum(case["rs"]) % 5]       # the transform is homogeneous
+    if mag != 1:
+        x = x * x.dtype.type(mag)
     lay = sum(case["rs"]) % 5
     if lay == 1:
         x = np.asfortranarray(x)                     # Fortran-ordered image
@@ -283,7 +286,7 @@ def run_case(case):
                         obs=obs)
     # exact adjointness
     cdt = np.complex64 if single else np.complex128
-    yy = crandn(rng, y.shape, cdt)
+    yy = crandn(rng, y.shape, cdt) * cdt(mag)
     xa = sp.nufft_adjoint(yy, coord, batch + grid, oversamp=ov, width=w)
     xg = crandn(rng, batch + grid, cdt)
     yg = sp.nufft(xg, coord, oversamp=ov, width=w)
